@@ -71,6 +71,12 @@ fn strategy(ctx: &Ctx) -> BoxedStrategy<Case> {
                 s.magic_xor = 0;
                 s.sum_delta = 0;
                 s.len = gen::TsTweak::None;
+            } else if keep == 0 {
+                // a length below the 16-byte fixed part with everything else
+                // consistent (magic, checksum computed for that length)
+                s.magic_xor = 0;
+                s.sum_delta = 0;
+                s.len = gen::TsTweak::Tiny((s.arch as u8 + s.tags.len() as u8 * 4) % 17);
             }
             let mut region = gen::build_hdr(&s);
             let sanitized = sanitize_hdr_enums(&mut region) as u32;
